@@ -54,8 +54,10 @@ SimpleValueNI = Str | 'CODE' | 'true' | 'false' | '?' | List | Dag | 'ID' | Clas
 ValueNI = SimpleValueNI Suffix* ('#' InnerValue)* ;
 ClassValue = 'ID' '<' ArgValueList '>' ;
 CondClause = Value ':' Value ;
-NameValue = NameInner ('#' NameInner)* ;
+NameValue = NameFirst ('#' NameInner)* ;
+NameFirst = SimpleValueNoBits NameSuffix* ;
 NameInner = SimpleValue NameSuffix* ;
+SimpleValueNoBits = Int | Str | 'CODE' | 'true' | 'false' | '?' | List | Dag | 'ID' | ClassValue | BangOp | CondOp ;
 NameSuffix = '[' SliceElements ']' | '.' 'ID' ;
 DagArgList = DagArg (',' DagArg)* ;
 "#;
